@@ -15,7 +15,10 @@
                                                    removes it, the set becomes the reusable list (Go map
                                                    order: the order is an INPUT here, checked to be a
                                                    permutation); NewTablePage of a page that is not in the
-                                                   file: AllocatePage until the id is covered, WritePage
+                                                   file: AllocatePage until the id is covered, WritePage;
+                                                   at the end (fix d99b876): if an id of the rebuilt list
+                                                   lies at or beyond the end of the db file,
+                                                   [for AllocatePage() < largest such id {}]
       lib/samehada/samehada.go                     NewSamehadaDB: Redo, GCLogFile (log emptied), one
                                                    DEALLOCATE_PAGE record per id of the rebuilt list, Flush
     Deallocation is not transactional: neither record carries a transaction, nothing is undone when the
@@ -118,14 +121,24 @@ Definition pa_bump (l : list pa_rec) (fs : N) : N * N := fold_left pa_bstep l (p
 (** one above the largest id of a list (0 for the empty list) *)
 Definition pa_top (l : list N) : N := fold_right (fun p a => N.max (p + 1) a) 0 l.
 
-(** [fx = false]: the engine as it is.  [fx = true]: a start-up that additionally raises the allocator above
-    every id of the rebuilt reusable list (a repair the engine does not have; see Props/C13Alloc.v). *)
+(** [fx = true]  (= [pa_now]): the engine as it is now, with the repair d99b876 at the end of Redo:
+                     [m] = the largest id of the rebuilt list that is >= DiskManager.Size()/PageSize (the size after
+                     the NewTablePage redo); if there is one, [for AllocatePage() < m {}]: the next id becomes
+                     max(next, m) + 1 — one id is consumed even when next > m already.
+    [fx = false] (= [pa_prefix]): the start-up BEFORE that repair (the allocator stays where the file size and the
+                     NewTablePage redo put it); kept as the subject of the machine-checked witness of the defect. *)
+Definition pa_now : bool := true.
+Definition pa_prefix : bool := false.
+
+(** one above the largest id of [reus] that is at or beyond the end of the file; 0 if there is none *)
+Definition pa_topb (reus : list N) (fs : N) : N := pa_top (filter (fun p => fs <=? p) reus).
+
 Definition pa_restart (fx : bool) (st : pa_state) (kept : nat) (surv order : list N) : pa_state :=
   let dl := firstn kept (pa_log st) in
   let set := pa_lset dl in
   let reus := if pa_perm_b order set then order else set in
   let '(nx, fs) := pa_bump dl (pa_fsize st) in
-  mkPA (if fx then N.max nx (pa_top reus) else nx)
+  mkPA (if fx then (if pa_topb reus fs =? 0 then nx else N.max (nx + 1) (pa_topb reus fs)) else nx)
        reus (filter (fun x => memN x surv) (pa_inuse st)) [] [] (map RDealloc reus) (length reus) fs.
 
 Definition pa_step (fx : bool) (st : pa_state) (o : pa_op) : pa_state * pa_out :=
@@ -214,7 +227,8 @@ Definition pa_client_ok (st : pa_state) (o : pa_op) : bool :=
     the redo of NewTablePage records).
     Expected to be established by: FlushAllDirtyPages at shutdown + owners releasing new pages dirty (owned
     ids, clean restart); FlushPage at creation (NewTableHeap, catalog) and the NewTablePage redo (owned ids,
-    crash).  For the ids of the REUSABLE list nothing in the engine establishes it. *)
+    crash).  For the ids of the REUSABLE list the start-up establishes it itself since d99b876 ([fx = true]);
+    before, nothing in the engine did. *)
 Definition pa_image_owned_ok (st : pa_state) (kept : nat) (surv : list N) : bool :=
   let nx := fst (pa_bump (firstn kept (pa_log st)) (pa_fsize st)) in
   forallb (fun p => p <? nx) (filter (fun x => memN x surv) (pa_inuse st)).
@@ -228,6 +242,14 @@ Definition pa_image_ok (fx : bool) (st : pa_state) (o : pa_op) : bool :=
       pa_image_owned_ok st (length (pa_log st)) (pa_inuse st)
       && (fx || pa_image_reusable_ok st (length (pa_log st)))
   | OCrashRestart kept surv _ => pa_image_owned_ok st kept surv && (fx || pa_image_reusable_ok st kept)
+  | _ => true
+  end.
+
+(** the owned half alone: all that a restart of the current engine needs *)
+Definition pa_owned_ok (st : pa_state) (o : pa_op) : bool :=
+  match o with
+  | OCleanRestart _ => pa_image_owned_ok st (length (pa_log st)) (pa_inuse st)
+  | OCrashRestart kept surv _ => pa_image_owned_ok st kept surv
   | _ => true
   end.
 
@@ -245,6 +267,9 @@ Fixpoint pa_run_g (fx : bool) (g : pa_state -> pa_op -> bool) (st : pa_state) (o
 
 Definition pa_guard_all (fx : bool) (st : pa_state) (o : pa_op) : bool :=
   pa_client_ok st o && pa_image_ok fx st o.
+
+(** the hypotheses for the current engine: the callers' contract and the owned half of the image condition *)
+Definition pa_guard_now (st : pa_state) (o : pa_op) : bool := pa_client_ok st o && pa_owned_ok st o.
 
 (** ids NewPage returned, in order *)
 Fixpoint pa_news (ops : list pa_op) (outs : list pa_out) : list N :=
